@@ -616,6 +616,7 @@ type CLog struct {
 	Trailer   http.Header
 	CloseErr  error
 	Sent      int
+	PostEnd   []error // results of Receive calls made after the stream had ended (bidi)
 }
 
 // Do runs the canonical client program for a kind: send everything, close the
@@ -715,6 +716,14 @@ func (cs *ClientSet) Do(ctx context.Context, kind Kind, id string, hdr http.Head
 		}
 		<-sendDone
 		l.Header, l.Trailer = st.ResponseHeader().Clone(), st.ResponseTrailer().Clone()
+		// keep polling after the end: Receive must keep reporting an error
+		for i := 0; i < 3; i++ {
+			m, err := st.Receive()
+			l.PostEnd = append(l.PostEnd, err)
+			if err == nil {
+				l.Msgs = append(l.Msgs, proto.Clone(m).(*Msg))
+			}
+		}
 		l.CloseErr = st.CloseResponse()
 	}
 	return l
